@@ -60,12 +60,15 @@ BASE_SHAPES = {
     # an observer in the last of three stages whose producers sit in both earlier stages, plus a same-stage subject
     "obs3": [comp("z", outs=(1,)), comp("w", stage=1, prods=["z"], outs=(1, 4)), comp("p", stage=2, shutOn=KI, outs=(1, 2)),
              comp("o", stage=2, prods=["w", "p"], repeat=True, outs=(1,))],
+    # a task that fails next to a long-running sibling and the sibling's not yet staged consumer (what a postponed
+    # finishedCheck still has to stop at wake-up: _stopComponents for the one, fake finish for the other)
+    "sibs": [comp("a", outs=(4, 1)), comp("s", outs=(1,)), comp("t", prods=["s"], outs=(1,))],
 }
 
 QUICK = ["chain2", "chain2s", "chain3", "stages2", "fanin", "obs", "obs2", "obschain", "agg", "restart", "xfail", "aggfail"]
 THOROUGH = QUICK + ["aggchain", "diamond"]
 # growth item G02 (external kill, restart from a later stage, sleep / wake-up, memoization)
-G02_QUICK = ["chain2", "stages2", "fanin", "obs", "obs2", "agg", "xfail", "aggfail", "restart", "stages3"]
+G02_QUICK = ["chain2", "stages2", "fanin", "obs", "obs2", "agg", "xfail", "aggfail", "restart", "stages3", "sibs"]
 G02_THOROUGH = G02_QUICK + ["chain3", "obschain", "diamond", "obs3"]
 
 
